@@ -399,7 +399,7 @@ func partA(r *ev.Run, until time.Time) partAResult {
 	cut := atomic.Bool{}
 	cfg := cdrive.WalkConfig{Tier: r.Tier, BatchSize: 48, Families: []string{"coro-extras", "coro", "calls", "io"},
 		Extra: map[string]progen.Family{"coro-extras": paExtras()},
-		Keep:  func(p *interp.Prog) bool { return p.HasCoroutines() },
+		Keep:  func(_ string, p *interp.Prog) bool { return p.HasCoroutines() },
 		Stop: func() bool {
 			if os.Getenv("VERIF_STOP_ON_VIOLATION") == "1" && r.NumViolations() > 0 {
 				cut.Store(true)
